@@ -198,6 +198,8 @@ class Executor(object):
         raise Unsupported("fresh of sort %r" % (sort,))
 
     def havoc_like(self, v, prefix="h"):
+        if isinstance(v, ExcVal):
+            return v          # exception objects are only ever replaced, never mutated
         if isinstance(v, bool):
             return z3.Bool(fresh_name(prefix))
         if isinstance(v, int):
@@ -939,7 +941,7 @@ class Executor(object):
         if isinstance(fn, ast.Lambda):
             res = self.eval(fn.body, st, sub)
             for s, v in res:
-                s.env = saved_env if s is st else _restore_env(s, saved_env, st)
+                s.env = saved_env if s is st else dict(saved_env)
                 out.append((s, v))
             return out
         for s, oc in self.exec_block(fn.body, st, sub):
@@ -1002,10 +1004,13 @@ class Executor(object):
         if contract is not None:
             sub.entry = st.fork()
         out = []
+        first = True
         for s, oc in self.exec_block(fi.node.body, st, sub):
             s.ghost["_last_env"] = None
             s_env = s.env
-            s.env = saved_env
+            # every returning path continues in its own copy of the caller's environment
+            s.env = saved_env if first else dict(saved_env)
+            first = False
             v = _outcome_to_value(oc)
             out.append((s, v))
             if contract is not None:
@@ -1323,6 +1328,9 @@ class Executor(object):
                 return [(s_, ("raise", x.exc) if isinstance(x, Raised) else None) for s_, x in r]
             obj.fields[attr] = v
             return [(st, None)]
+        if isinstance(o, ExcVal) and attr == "__cause__":
+            o.cause = v
+            return [(st, None)]
         if isinstance(o, (Opaque, UFunc)):
             self.note_unmodelled(ctx, "setattr on %r" % (_short(o),))
             return [(st, None)]
@@ -1568,11 +1576,15 @@ class Executor(object):
             # --- body path
             sb = s.fork()
             sb.assume(gb)
+            # vacuity guard: the loop body must be reachable under the invariant (a contradictory invariant proves anything)
+            self.reg.cover("%s/%s/cover#loop%d-body-reachable@L%d" % (self.prop, ctx.tag, k, lineno), ctx.tag, self.global_axioms + sb.pc, lineno)
             if self.feasible(sb):
                 v0 = self.eval_spec(variant, sb, ctx) if variant else None
                 vguard0 = to_bool(self.eval_spec(spec["variant_while"], sb, ctx)) if spec.get("variant_while") else None
                 body_results = self.exec_block(node.body, sb, ctx)
                 for j, (s2, oc) in enumerate(body_results):
+                    if (oc is None or oc[0] == "continue") and spec.get("on_iteration_end") is not None:
+                        spec["on_iteration_end"](self, s2, ctx)
                     if oc is None or oc[0] == "continue":
                         tr = ".".join("%d%s" % (ln, "T" if b else "F") for ln, b in s2.trace[len(s.trace):])
                         for i, inv in enumerate(invs):
